@@ -235,7 +235,11 @@ func calleeName(c ssa.CallInstruction) string {
 		recv := com.Value.Type()
 		tn := recv.String()
 		if n, ok := recv.(*types.Named); ok {
-			tn = shortPkg(n.Obj().Pkg().Path()) + "." + n.Obj().Name()
+			if n.Obj().Pkg() != nil {
+				tn = shortPkg(n.Obj().Pkg().Path()) + "." + n.Obj().Name()
+			} else {
+				tn = n.Obj().Name()
+			}
 		}
 		return "iface:" + tn + "." + com.Method.Name()
 	}
